@@ -38,6 +38,7 @@ type accParams struct {
 func runAcc(c *chk.Ctx, prop string) {
 	fams := []accParams{
 		{Prop: prop, Family: "special"},
+		{Prop: prop, Family: "slots"},
 		{Prop: prop, Family: "corpus"},
 		{Prop: prop, Family: "models", Budget: chk.Pick(c, 3, 4)},
 		{Prop: prop, Family: "mutants", MutantMax: chk.Pick(c, 1200, 4096)},
@@ -51,7 +52,7 @@ func runAcc(c *chk.Ctx, prop string) {
 		per[f.Family] = map[string]any{"params": f, "inputs": c.Counts()["inputs"] - b0, "accepted": c.Counts()["accepted"] - a0}
 	}
 	c.Cov["families"] = per
-	c.Cov["rule"] = "four finite input families, each enumerated completely: every generated model within the node budget x its structural layouts (URL grouping, child Body, MACRO/INCLUDE moves, deviation 1); every corpus .jst file; every single-line deletion and adjacent-line swap of every corpus file below the size bound; every sequence of directive instances up to the length bound; plus hand-written projects covering every notation in every position. The validator runs on every ACCEPTED member; non-trivial = accepted, distinct by content hash"
+	c.Cov["rule"] = "four finite input families, each enumerated completely: every generated model within the node budget x its structural layouts (URL grouping, child Body, MACRO/INCLUDE moves, deviation 1); every corpus .jst file; every single-line deletion and adjacent-line swap of every corpus file below the size bound; every sequence of directive instances up to the length bound; plus hand-written projects covering every notation in every position, and a document with 25 free-text slots (title, descriptions, annotations, notes, enum values and comments, path, query example, header value, JSON-RPC method name, regex) x every byte value and 14 multi-byte / escape sequences written into one slot at a time. The validator runs on every ACCEPTED member; non-trivial = accepted, distinct by content hash"
 	switch prop {
 	case "C04":
 		c.Assumptions = append(c.Assumptions, "JDoc Exchange 2.0.0 shape as encoded in internal/ref/jdoc.go (fixed top-level keys, required fields, node typing)")
@@ -91,6 +92,20 @@ func workAcc(w *run.W) {
 		for i, pr := range c16Projects {
 			if w.Mine(int64(i)) && w.Begin("special:"+pr.Name) {
 				judge(pr.Name, pr.Text, impl.BuildMem("root.jst", pr.Text))
+				w.End()
+			}
+		}
+	case "slots":
+		// every string slot of a document x every byte value and a few multi-byte sequences written into it
+		var idx int64
+		for si := 0; si < strings.Count(accSlotDoc, "\u00a7"); si++ {
+			for _, ins := range accSlotInserts() {
+				idx++
+				if !w.Mine(idx) || !w.Begin(fmt.Sprintf("slot%d:%q", si, ins)) {
+					continue
+				}
+				txt := accFillSlot(si, ins)
+				judge(fmt.Sprintf("slot%d", si), txt, impl.BuildMem("root.jst", txt))
 				w.End()
 			}
 		}
@@ -199,6 +214,10 @@ var accNegatives = []struct{ Name, Text string }{
 	{"path-param-unknown", "JSIGHT 0.3\nGET /a/{id}\n  Path\n  {\"other\": 1}\n  200 any\n"},
 	{"jsight-0.2", "JSIGHT 0.2\nGET /a\n  200 any\n"},
 	// accepted, unusual
+	// a declared TAG whose name is also the tag made up from the path of an untagged interaction
+	{"declared-tag-equals-path-tag", "JSIGHT 0.3\nTAG @cats // Mine\n  Description\n    about\nGET /x\n  Tags @cats\n  200 any\nGET /cats\n  200 any\nGET /cats/{id}\n  200 any\n"},
+	{"declared-tag-equals-path-tag-url-macro-rpc", "JSIGHT 0.3\nTAG @pets // Pets\nMACRO @m\n(\n  GET /y\n    Tags @pets\n    200 any\n)\nURL /z\n  Tags @pets\n  GET\n    200 any\nPASTE @m\nURL /pets\n  Protocol json-rpc-2.0\n  Method list\n    Params\n    {}\nGET /pets/{id}\n  200 any\n"},
+	{"url-tags-and-same-path-top-level-method", "JSIGHT 0.3\nTAG @pets\nURL /cats\n  Tags @pets\n  GET\n    200 any\nPOST /cats\n  200 any\nPUT /cats/{id}\n  200 any\n"},
 	{"same-tag-twice-in-tags", "JSIGHT 0.3\nTAG @t\nGET /a\n  Tags @t @t\n  200 any\n"},
 	{"same-tag-url-and-method", "JSIGHT 0.3\nTAG @t\nTAG @u\nURL /a\n  Tags @t\n  GET\n    Tags @u @t\n    200 any\n  POST\n    200 any\n"},
 	{"path-or-mismatch", "JSIGHT 0.3\nGET /a/{id}\n  Path\n  {\n    \"id\": \"x\" // {or: [{type: \"integer\"}, {type: \"boolean\"}]}\n  }\n  200 any\n"},
@@ -212,6 +231,29 @@ var accNegatives = []struct{ Name, Text string }{
 	{"body-only-annotation", "JSIGHT 0.3\nGET /a\n  200\n    // only an annotation\n  404 any\n"},
 	{"type-body-only-annotation", "JSIGHT 0.3\nTYPE @t\n  // only an annotation\nGET /a\n  200 any\n"},
 	{"allof-key-shortcut-clash", "JSIGHT 0.3\nTYPE @name\n  \"n\"\nTYPE @base\n  {\n    @name: 1\n  }\nTYPE @d\n  { // {allOf: \"@base\"}\n    \"@name\": 2\n  }\nGET /a\n  200 @d\n"},
+}
+
+// accSlotDoc: a document with a marker (section sign) in every place where free text of the author ends up in the catalog.
+const accSlotDoc = "JSIGHT 0.3\nINFO\n  Title \"T\u00a7i\"\n  Description\n    de\u00a7sc\nSERVER @s // se\u00a7rv\n  BaseUrl \"http://h/\u00a7\"\nTAG @t // ta\u00a7g\n  Description\n    tag\u00a7text\nENUM @e // en\u00a7um\n[\n  \"a\", // va\u00a7l\n  \"b\u00a7c\"\n]\nTYPE @ty // ty\u00a7pe\n{\n  \"k\": 1, // no\u00a7te\n  \"s\": \"st\u00a7r\",\n  \"e\": \"a\" // {enum: @e} - x\u00a7y\n}\nGET /pa\u00a7th/{id} // me\u00a7th\n  Tags @t\n  Query \"q=\u00a71\"\n  {\"q\": 1}\n  Request\n    Headers\n    {\"X-H\": \"v\u00a71\"}\n    Body any\n  200 @ty // re\u00a7sp\n  404 regex\n  /a\u00a7b/\nURL /rpc\n  Protocol json-rpc-2.0\n  Method na\u00a7me // rp\u00a7c\n    Params\n    {\"p\": \"pa\u00a7r\"}\n"
+
+func accFillSlot(slot int, ins string) string {
+	parts := strings.Split(accSlotDoc, "\u00a7")
+	var b strings.Builder
+	for i, p := range parts {
+		b.WriteString(p)
+		if i == slot {
+			b.WriteString(ins)
+		}
+	}
+	return b.String()
+}
+
+func accSlotInserts() []string {
+	out := []string{""}
+	for b := 1; b < 256; b++ {
+		out = append(out, string([]byte{byte(b)}))
+	}
+	return append(out, "\u00e9", "\u00a0", "\u2028", "\u0085", "\U000e0001", "\U0001f600", "\xe9t", "\xff\xfe", "\xc3", "\xed\xa0\x80", "\\u0000", "\\", "\\\"", "<&>")
 }
 
 func accJudge(w *run.W, prop, text string, b *impl.Built) {
